@@ -201,7 +201,8 @@ def run(rep: common.Report, tier: str, seed: int):
     fails = common.run_model('C06', 'Harness.C06', 'C06.case', 'C06.failing', lits, shard=2, extra_imports=IMPORTS, timeout=1500)
     names = ['farcall-file-tokens', 'wall-floor-bed-tokens', 'main-tokens', 'parse', 'call-of-missing-or-unloaded-program',
              'program-left-loaded', 'shutter-left-open', 'shutter-open-outside-sub-program-chains', 'chain-entered-away-from-its-first-point',
-             'chain-holds-non-move-instructions', 'depth-not-covered', 'n_repeat-not-from-current-parameters']
+             'chain-holds-non-move-instructions', 'depth-not-covered', 'n_repeat-not-from-current-parameters',
+             'calling-file-rejected-by-the-verified-static-checker']
     for idx, code in fails:
         which = [names[k] for k in range(len(names)) if code >> k & 1]
         c = cases[idx]
